@@ -19,7 +19,8 @@ EXCLUDED_PARENTS = ["build", "dist", "venv", ".venv", "node_modules", "__pycache
 TEST_PARENTS = ["tests", "test", "test_data", "mytest_", "a.test.b", "spec", "examples", "benches", "fixtures", "__tests__", "testing"]
 PLAIN_PARENTS = ["plain", "with space", "ünï", "src", "lib"]
 
-SPELLINGS = ["dot", "abs", "rel-from-parent", "dotdot", "sibling", "files-rel", "files-abs", "abs-elsewhere", "project-root-opt", "dot-slash"]
+SPELLINGS = ["dot", "abs", "rel-from-parent", "dotdot", "sibling", "files-rel", "files-abs", "abs-elsewhere", "project-root-opt", "dot-slash",
+             "via-parent-dotdot", "files-via-parent-dotdot"]
 
 
 def project(rng):
@@ -57,6 +58,9 @@ def norm_path(p: str, root: str, cwd: str) -> str:
 
 def norm_msg(msg: str, root: str, cwd: str) -> str:
     msg = msg.replace(os.path.realpath(root) + "/", "").replace(root + "/", "")
+    rel = os.path.relpath(root, cwd)
+    if rel not in (".", ""):
+        msg = msg.replace(rel + "/", "")
 
     def sub(m):
         tok = m.group(1)
@@ -94,6 +98,10 @@ def exec_case(case):
             cwd, targets = root, list(srcs)
         elif sp == "files-abs":
             cwd, targets = elsewhere, [os.path.join(root, f) for f in srcs]
+        elif sp == "via-parent-dotdot":
+            cwd, targets = elsewhere, [os.path.join("..", case["parent"], "proj")]
+        elif sp == "files-via-parent-dotdot":
+            cwd, targets = elsewhere, [os.path.join("..", case["parent"], "proj", f) for f in srcs]
         elif sp == "abs-elsewhere":
             cwd, targets = elsewhere, [root]
         elif sp == "project-root-opt":
@@ -118,7 +126,8 @@ def mechanism(cmd, parent, sp, only_ref, only_var, files_in_ref):
     """Mechanism key from the shape of the difference (never from the case identity)."""
     marker = any(m in parent.lower() for m in ("test", "spec", "example", "bench", "fixture"))
     pclass = "test-marker-parent" if marker else "excluded-dir-parent" if parent in EXCLUDED_PARENTS else "plain-parent"
-    if pclass == "test-marker-parent" and sp not in ("abs", "files-abs", "abs-elsewhere", "project-root-opt"):
+    # the marker is only visible to the tool when the spelled target runs through the parent directory
+    if pclass == "test-marker-parent" and sp not in ("abs", "files-abs", "abs-elsewhere", "project-root-opt", "via-parent-dotdot", "files-via-parent-dotdot"):
         pclass = "test-marker-parent-relative-spelling"
     lost_files = {r[1] for r in only_ref}
     gained_files = {r[1] for r in only_var}
@@ -142,7 +151,7 @@ def run(ctx):
         parents = PLAIN_PARENTS[:3] + EXCLUDED_PARENTS[:6] + ["pkg.egg-info"] + TEST_PARENTS[:7]
     cases = []
     for p in parents:
-        sps = SPELLINGS if (not ctx.quick or p in ("plain", "build", "tests")) else ["dot", "abs", "rel-from-parent", "files-abs"]
+        sps = SPELLINGS if (not ctx.quick or p in ("plain", "build", "tests")) else ["dot", "abs", "rel-from-parent", "files-abs", "via-parent-dotdot"]
         for sp_chunk in [sps[i:i + 3] for i in range(0, len(sps), 3)]:
             cases.append({"parent": p, "files": files, "spellings": sp_chunk, "cmds": cmds})
     ref_case = {"parent": "ref", "files": files, "spellings": ["dot"], "cmds": cmds}
